@@ -106,6 +106,9 @@ string; every thorough command was run end-to-end once (wall times in `evidence/
 * C12: nearest-point ties: squared distances within `tol.merge` -> margin 2e-8.
 * C04 / C01 / C10 / C15: `apply_transform`'s identity shortcut (max|M - I| < 1e-8) and `transform_points`' own band are
   documented tolerances -> parameter ranges keep away from them and say so.
+* C01 (thorough tier, first end-to-end run): near-identity matrices with |M3 - I| <= 1e-6 are treated as "no rotation" by
+  `apply_transform` (`has_rotation`, atol=1e-6) and keep cached normals, which then differ from fresh ones by ~3e-7; my oracle
+  demanded 1e-8 -> the near-identity families were removed from C01 (they stay in C04 for the vertices) and the band is stated.
 * C07: merge tolerance is `10^-digits_vertex`, not always 1e-8.  C13: "lengths add up" only for non-empty data.
 * C14 / C15 (`no_proxy` units): float results must be compared with a relative tolerance, not exactly.
 * C17: a detached `ColorVisuals` can only report colours of its own kind; C18: wrong expected face count in my own oracle.
